@@ -45,6 +45,9 @@ type KStep struct {
 	// ROCache: for the duration of this run the cache cannot be written ("file": cache.json is
 	// read-only, "dir": the .spok directory is); spok may stop with an error about its cache
 	ROCache string `json:"ro_cache,omitempty"`
+	// Flags: further flags of this run (--json, --quiet, -j, -q): how results are reported has no
+	// bearing on what may be skipped or on whether a damaged cache is an error
+	Flags []string `json:"flags,omitempty"`
 }
 
 // KillCase is a C10 case.
@@ -160,6 +163,7 @@ func genKillBody(t *rapid.T) KillCase {
 			case 2:
 				st.ROCache = rapid.SampledFrom([]string{"file", "dir"}).Draw(t, "ro_cache")
 			}
+			st.Flags = rapid.SampledFrom([][]string{nil, nil, nil, nil, {"--json"}, {"--quiet"}, {"-j"}, {"--json", "--quiet"}}).Draw(t, "run_flags")
 		}
 		c.Steps = append(c.Steps, st)
 	}
@@ -366,6 +370,7 @@ func execKill(s *ev.Shard, b *sandbox.Box, c KillCase) *rp.Fail {
 			if st.Force {
 				args = append(args, "--force")
 			}
+			args = append(args, st.Flags...)
 			args = append(args, st.Tasks...)
 			cwd := b.Proj
 			if st.Elsewhere {
